@@ -78,10 +78,15 @@ def removal_causes(ctx, nid):
     return out
 
 
-def rule_pure_observers(ctx):
-    r = RuleResult('PURE-observers', 'contains_key / iter / Iter::next / EntryRef / policy / counters getters have no may-effect '
-                   'on popularity, recency, timestamps, admission flags, queues or (sync) the map; unsync contains_key may remove '
-                   'map entries only with cause expiry')
+def rule_pure_observers(ctx, only_timestamps=False):
+    if only_timestamps:
+        r = RuleResult('PURE-observers(timestamps)', 'contains_key / iter / Iter::next / EntryRef accessors have no may-effect on the '
+                       'last-accessed / last-modified stores (EntryInfo.last_accessed/last_modified, KeyDate/KeyHashDate.timestamp), '
+                       'send no ReadOp and reach no maintenance')
+    else:
+        r = RuleResult('PURE-observers', 'contains_key / iter / Iter::next / EntryRef / policy / counters getters have no may-effect '
+                       'on popularity, recency, timestamps, admission flags, queues or (sync) the map; unsync contains_key may remove '
+                       'map entries only with cause expiry')
     prog, eff = ctx.prog, ctx.eff
     R = get_roles(ctx)
     has_sync = any(n.startswith('sync::') for n in prog.bodies)
@@ -124,7 +129,7 @@ def rule_pure_observers(ctx):
                 if e[0] == 'call' and e[1] in (HASHMAP_MUT - HASHMAP_REMOVE - {'std::collections::HashMap::get_mut'}):
                     bad.append(('map-mutation', e[1].split('::')[-1], e))
             # removals: only with cause expiry
-            for x in sorted(reach):
+            for x in sorted(reach) if not only_timestamps else ():
                 if R.ext_calls[x] & HASHMAP_REMOVE:
                     causes = removal_causes(ctx, x)
                     for (callee, line), cs in sorted(causes.items(), key=str):
@@ -135,6 +140,9 @@ def rule_pure_observers(ctx):
                             r.violate(o, 'map-removal-not-expiry', x, 'observer %s can remove a map entry that is not expired (in %s): '
                                       'a later lookup/iteration can observe the difference' % (o.split('::')[-1], x),
                                       where=ctx.where(x, line), path=path, expected='removals reachable from an observer are dominated by the expiry predicate')
+        if only_timestamps:
+            ts_names = {'%s.%s' % (a.split('::')[-1], f) for a, f in SYNC_TS + UNSYNC_TS}
+            bad = [x for x in bad if (x[0] == 'state-write' and x[1] in ts_names) or x[0] in ('queue-send', 'op-construct', 'maintenance')]
         r.instance(observer=o, kind=kind, reachable_functions=len(reach), forbidden_effects=[(k, d) for k, d, _ in bad])
         seen = set()
         for k, d, e in bad:
@@ -303,3 +311,7 @@ def rule_const_masks(ctx):
     if not has128:
         r.violate(b3.nid, 'clamp', '128', 'sketch_capacity() lower clamp 128 missing', where=ctx.where(b3.nid))
     return r
+
+
+def rule_pure_observers_ts(ctx):
+    return rule_pure_observers(ctx, only_timestamps=True)
